@@ -202,6 +202,7 @@ func runC10(args []string) {
 		{{K: "unlock"}},
 		{{K: "unlock"}, {K: "next_ext", N: 2}, {K: "next_int", N: 1}},
 		{{K: "unlock"}, {K: "new_account"}, {K: "next_ext", A: 1, N: 1}},
+		{{K: "set_synced_jump"}, {K: "set_synced", N: 1}},
 	}
 	ops := []amgr.Op{
 		{K: "next_ext", N: 1}, {K: "next_ext", N: 2}, {K: "next_int", N: 1}, {K: "extend_ext", N: 2}, {K: "extend_int", N: 1},
